@@ -23,7 +23,7 @@ func init() {
 func runC10(c *Ctx) {
 	c.Rule("C10.O1", "E4", "OnComplete: the executor job is ServeHTTP followed by flushResponse and nothing else; !ok edge releases the request and runs no handler", 1)
 	c.Rule("C10.O2", "E4,E2", "flushResponse: Close only after flush (or at once on flush error), keep-alive renewal on the other edge, releaseRequest and releaseResponse exactly once on every path with a connection", 2)
-	c.Rule("C10.O3", "E1,E4", "ClientConn: handlers/closed/conn guarded by its mutex; Do appends before writing the request; onResponse invokes and pops index 0; close invokes all pending handlers and clears the list", 8)
+	c.Rule("C10.O3", "E1,E4", "ClientConn: handlers/closed/conn guarded by its mutex; Do appends before writing the request; onResponse invokes and pops index 0; close invokes all pending handlers and clears the list", 14)
 	c.Rule("C10.O4", "E7d", "startListeners: TLS and non-TLS switches over IOMod have cases {0,1,2}; blocking <-> AddConn*Blocking, non-blocking <-> AddConn*NonBlocking, mixed <-> A blocking with Decrease + B non-blocking; TLS loop uses the TLS variants", 8)
 	c.Rule("C10.O7", "E4,E5", "the close the library issues itself after a complete 'Connection: close' response does not cut the response off: the Close it calls drains (reaches flush, or tears down only on the queue-empty edge) instead of releasing the write queue unsent", 1)
 	c.Rule("C10.O6", "E4,E6", "the TLS drain loops read the decrypted stream to exhaustion: an edge of a test on AppendAndRead's count that does not come back to AppendAndRead (without a new socket read) is taken only for a count of zero; one socket read can carry several TLS records, each returned by its own AppendAndRead", 2)
